@@ -143,6 +143,23 @@ def diff_until_taint(r):
     return {"line": min(len(gl), len(ml)), "impl": "<%d lines>" % len(gl), "model": "<%d lines>" % len(ml)}
 
 
+def fixed_group_in(m, msg):
+    """does the message speak about a stop group one of whose stops carries the fixed flag (initial stops)?  The code never
+    removes anything from such a group while it builds the initial solution, so finding N6 cannot be what is seen."""
+    fixed = {x for ve in m["vehicles"] for x, fx in ve.get("initial", []) if fx}
+    groups = [[x for ui in g for x in m["units"][ui]["stops"]] for g in m.get("groups", [])]
+    hit = []
+    mm = re.search(r"unit (1\d\d\d)\b", msg)
+    if mm:
+        key = int(mm.group(1)) - 1000
+        hit = [g for g in groups if min(g) == key]
+    mm = re.search(r"stop group \[([0-9, ]+)\]", msg)
+    if mm:
+        ids = {int(x) for x in mm.group(1).split(",")}
+        hit += [g for g in groups if set(g) == ids]
+    return any(x in fixed for g in hit for x in g)
+
+
 def nested_stage(chk, pid, tier, seed, names, check_c07):
     """histories on models with stop groups and initial/fixed stops: correspondence with
     Model/Units.v, property oracles on the implementation's snapshots with finding shapes"""
@@ -190,6 +207,10 @@ def nested_stage(chk, pid, tier, seed, names, check_c07):
     for i in range(max(60, n // 4)):
         m, ops = G.member_unplan_rejected(rng)
         cases.append({"id": "r%d" % i, "model": m, "ops": ops})
+    # a group with the fixed flag on one member only as initial stops of a vehicle whose maximum duration the route exceeds
+    for i in range(max(40, n // 6)):
+        m, ops = G.initial_group_mixed_fixed(rng)
+        cases.append({"id": "x%d" % i, "model": m, "ops": ops})
     n = len(cases)
     res, st = E.run_cases(cases, "%s_nested_%s" % (pid.lower(), tier), timeout=3000)
     # implementation and model are compared up to AND INCLUDING the first step that corrupts the bookkeeping of nested
@@ -245,6 +266,7 @@ def nested_stage(chk, pid, tier, seed, names, check_c07):
                 chk.violation({"kind": "history", "what": msg, "oracle": name, "step": k,
                                "finding_shape": {"kind": "nested", "oracle": name, "op": op, "result": st_["result"],
                                                  "group": group, "detail": detail, "tainted": tainted, "has_groups": bool(m.get("groups")),
+                                                 "fixed_group": fixed_group_in(m, msg),
                                                  "symptom": "planned_and_fixed" if "is in ['planned', 'fixed']" in msg else "other"},
                                "case": G.case_lines(m, ops[:k])})
             if op in ("munplanr", "vunplanr") or (op == "unplanr" and group) or (op in ("planr", "plancr") and group and st_["result"] != "done") \
